@@ -987,7 +987,7 @@ fn main() {
     let mut out = Out::new("From SC Require Import Lib.Prelude Lib.Int Lib.Host Model.ClaimIssuer Model.Identity Run.C15.\nOpen Scope Z_scope.", "check_all");
     out.per_shard(120);
     let seed = out.cfg.seed; let thorough = out.cfg.thorough; let scale = out.cfg.scale as usize;
-    let nrandom = if thorough { 900 } else { 90 } * scale;
+    let nrandom = if thorough { 600 } else { 90 } * scale;
     let njobs = NSCENARIOS + NLIMITS + nrandom;
     let nthreads = std::thread::available_parallelism().map(|n| n.get()).unwrap_or(4).min(16);
     let mut results: std::vec::Vec<Option<TraceResult>> = (0..njobs).map(|_| None).collect();
